@@ -1218,6 +1218,59 @@ def readded_address_partial_replay(**kw):
     return sc.rec
 
 
+def joiner_list_read_during_pending_change(**kw):
+    """KF-C10-2 (found by the membership proof worker, AbstractM/Examples.v run E; no address is re-used): a new voter is
+    started with the member list read from the leader while a removal was pending that never commits.  Voters 1,2,3;
+    leader 1 (cut off) appends 'rem 3' and shows the member list {1,2}; node 4 is started with it; 2 is elected by 3, 1's
+    entry is truncated (its table goes back to {2,3}); 'add 4' commits - node 4's table stays {1,2}, node 3 is missing for
+    ever (log replay never repairs a joiner's table); 'add 5' is committed by {2,3,5} of five; node 4 times out, node 1
+    grants, node 4 leads term 3 with two votes and commits a no-op where node 2 committed 'add 5'."""
+    sc = Script(base_cfg([1, 2, 3], dyn=True), **kw)
+    s = sc.s
+
+    def fresh(n, o):
+        s.clock[n] = s.clock.get(n, 0) + 1
+        sc.rec.do(('restart', n, o, s.clock[n], s.rnd()))
+        s.alive.add(n)
+        s.voters.append(n)
+    s.boot()
+    sc.elect_until(1, [2, 3])
+    sc.settle([1, 2, 3], 3)
+    sc.isolate(1)                                   # what 1 does next reaches nobody
+    sc.rec.do(('admin', 1, False, 3, 901))
+    s.tick(1, 11)                                   # 'rem 3' appended at 1 only: its member list reads {1, 2}
+    fresh(4, [1, 2])                                # the operator reads that list now
+    sc.elect_until(2, [3])
+    sc.settle([2, 3], 2)
+    sc.join(1)
+    sc.settle([1, 2, 3], 4)                         # 1's 'rem 3' is truncated, its table is {2, 3} again
+    sc.rec.do(('admin', 2, True, 4, 902))
+    s.tick(2, 11)
+    for x in (1, 2):
+        s.connect(4, x)
+        s.connect(x, 4)
+    s.tick(1, 11)
+    sc.settle([1, 2, 4], 6)                         # 'add 4' committed; node 4's table is still {1, 2}
+    fresh(5, [1, 2, 3, 4])
+    sc.rec.do(('admin', 2, True, 5, 903))
+    s.tick(2, 11)
+    for x in (2, 3):
+        s.connect(5, x)
+        s.connect(x, 5)
+    for x in (1, 4):                                # 1 and 4 miss 'add 5'
+        s.drop(2, x)
+        s.drop(x, 2)
+    sc.settle([2, 3, 5], 8)                         # committed by {2, 3, 5}
+    s.connect(4, 1)
+    s.connect(1, 4)
+    for _ in range(3):
+        if sc.sim.nodes[4]._SyncObj__raftState == 2:
+            break
+        sc.elect(4, [1])
+    sc.settle([4, 1], 5)
+    return sc.rec
+
+
 SCENARIOS = {'d7': d7, 'd8': d8, 'd17': d17, 'd16': d16, 'd1': d1, 'd20': d20,
              'snapshot_catchup': snapshot_catchup, 'forwarded': forwarded,
              'restart_double_vote': restart_double_vote, 'd18': d18, 'd10': d10, 'd19': d19, 'd6': d6,
@@ -1233,7 +1286,8 @@ SCENARIOS = {'d7': d7, 'd8': d8, 'd17': d17, 'd16': d16, 'd1': d1, 'd20': d20,
              'compacted_stale_leader_backoff': compacted_stale_leader_backoff,
              'raising_replay_after_restart': raising_replay_after_restart,
              'observer_of_snapshot_installed_voter': observer_of_snapshot_installed_voter,
-             'readded_address_partial_replay': readded_address_partial_replay}
+             'readded_address_partial_replay': readded_address_partial_replay,
+             'joiner_list_read_during_pending_change': joiner_list_read_during_pending_change}
 NAMES = sorted(SCENARIOS)
 
 
